@@ -75,8 +75,8 @@ void lin_xcorr_peak(const std::vector<T>& x, const std::vector<T>& y, int d, ld&
 
 // true if a DFT bin of low order r = n/gcd(n,k) <= 16 vanishes.  Integer-valued data (+-1 white sequences) can make such a bin EXACTLY zero
 // (zero sum, zero alternating sum, ...: twiddles of order 1,2,3,4,6 are exact or pair up); bins of higher order need >= 8 independent
-// integer sums to vanish at once and continuous data never do.  gccphat divides by |bin| (see the report: NaN), so these cases form
-// the excluded class "gccphat-zero-spectral-bin".
+// integer sums to vanish at once and continuous data never do.  gccphat's phase transform divides by |bin|: the class is labelled so
+// that its coverage is visible and a NaN there gets the signature "gccphat:nan:zero-spectral-bin".
 bool has_zero_low_order_bin(const std::vector<ld>& v) {
     const int n = int(v.size());
     ld vmax = 0;
@@ -190,21 +190,23 @@ void delay_check_impl(const Json& c, Out& o) {
             o.metric("gccphat |tau*fs-d|/0.5", std::isfinite(tau) ? double(e / 0.5L) : 1e300);
             if (!(e <= 0.5L)) o.fail(std::string("gccphat:") + form + ":" + sign_class(dd), fmt("%s: tau*fs = %.6Lg for shift %d, real x[%d], fs=%d (tau=%.17g, sub-seed %d)", form, ld(tau) * fs, dd, n, fs, tau, k));
         };
-        if (p.zero_bin && c.geti("zb", 0) == 0) {
-            // genuine library defect, excluded by construction (signature reserved below): PHAT weighting divides by a zero bin
-            o.label("excluded:gccphat-zero-spectral-bin");
-        } else {
-            auto g = gccphat(p.yr, p.xr, fs);
-            if (p.zero_bin && std::isnan(g.tau)) o.fail("gccphat:nan:zero-spectral-bin", fmt("gccphat(y, x).tau is NaN: a DFT bin of the +-1 data is exactly zero (real x[%d], shift %d, sub-seed %d)", n, d, k));
-            chk_tau(g.tau, d, "single");
-            o.evals += 1;
-            if (ch2) {
-                auto gm = gccphat(std::vector<arr_real>{p.yr, p.y2r}, p.xr, fs);
-                if (gm.tau.size() != 2) o.fail("gccphat:multi:size", fmt("2 channels gave %d delays", gm.tau.size()));
-                else { chk_tau(gm.tau[0], d, "multi[0]"); chk_tau(gm.tau[1], -d, "multi[1]"); }
-                o.evals += 2;
-                o.label("gccphat:two-channel");
+        // +-1 white data can make a DFT bin exactly zero; the PHAT weighting used to divide 0/0 there (fixed in /repo 613a6af,
+        // regression replay regress-gccphat-zero-bin.json).  The class stays an ordinary, asserted input class.
+        if (p.zero_bin) o.label("class:exactly-zero-spectral-bin");
+        auto g = gccphat(p.yr, p.xr, fs);
+        if (p.zero_bin && std::isnan(g.tau)) o.fail("gccphat:nan:zero-spectral-bin", fmt("gccphat(y, x).tau is NaN: a DFT bin of the +-1 data is exactly zero (real x[%d], shift %d, sub-seed %d)", n, d, k));
+        chk_tau(g.tau, d, "single");
+        o.evals += 1;
+        if (ch2) {
+            auto gm = gccphat(std::vector<arr_real>{p.yr, p.y2r}, p.xr, fs);
+            if (gm.tau.size() != 2) o.fail("gccphat:multi:size", fmt("2 channels gave %d delays", gm.tau.size()));
+            else {
+                if (p.zero_bin && (std::isnan(gm.tau[0]) || std::isnan(gm.tau[1]))) o.fail("gccphat:nan:zero-spectral-bin", fmt("gccphat({y, y2}, x).tau has NaN: a DFT bin of the +-1 data is exactly zero (real x[%d], shift %d, sub-seed %d)", n, d, k));
+                chk_tau(gm.tau[0], d, "multi[0]");
+                chk_tau(gm.tau[1], -d, "multi[1]");
             }
+            o.evals += 2;
+            o.label("gccphat:two-channel");
         }
     } else {
         const int got = finddelay(p.xc, p.yc);
